@@ -357,7 +357,7 @@ line:
 		error(&tok.loc, "#error directive is not implemented");
 	} else if (strcmp(name, "pragma") == 0) {
 		while (tok.kind != TNEWLINE && tok.kind != TEOF)
-			next();
+			scan(&tok);
 	} else {
 		error(&tok.loc, "invalid preprocessor directive #%s", name);
 	}
